@@ -101,13 +101,8 @@ fn oracles_str(out: &mut Out, text: &str, o: Options, reply: &str, res: &Result<
                     }
                     ok
                 });
-                if inside {
-                    out.count("surrogate_span_inside");
-                } else if matches!(e, Error::MissingLowSurrogate(..)) && out.prop == "C07" {
-                    out.known("C07-misslow-span-overshoot");
-                } else if out.prop == "C07" {
-                    out.oracle(false, "surrogate error span lies inside the offending escape sequence(s)", || reply.to_string());
-                }
+                out.oracle(inside, "surrogate error span lies inside the offending escape sequence(s)", || reply.to_string());
+                out.count("surrogate_span_checked");
             }
             _ => {}
         }
